@@ -97,7 +97,7 @@ type propSpec struct {
 var props = map[string]propSpec{
 	"C01": {ID: "C01", Engine: "raft", Profiles: []profShare{{"elect", 6}, {"transfer", 2}, {"member", 2}},
 		Rule: "a run counts when >=3 elections started and (some term had >=2 candidates or a leader was replaced); distinct by schedule hash"},
-	"C02": {ID: "C02", Engine: "raft", Profiles: []profShare{{"repl", 4}, {"elect", 3}, {"member", 2}, {"crash", 1}, {"diskerr", 1}},
+	"C02": {ID: "C02", Engine: "raft", Profiles: []profShare{{"repl", 3}, {"elect", 2}, {"snap", 2}, {"member", 1}, {"crash", 1}, {"diskerr", 1}},
 		Rule: "a run counts when a leader change happened after >=1 commit and (some node truncated a conflicting suffix or a leader was elected while some node held uncommitted entries); distinct by schedule hash"},
 	"C03": {ID: "C03", Engine: "raft", Profiles: []profShare{{"repl", 4}, {"snap", 3}, {"crash", 3}},
 		Rule: "a run counts when >=20 updates were applied on >=2 nodes and >=1 leader change, restore or restart happened; distinct by schedule hash"},
